@@ -1185,3 +1185,8 @@ CHECKS["C09"]["text"] += (
     " A further model has two connector classes with the same short name (E.Pin, T.Pin) and different variable lists, connected "
     "side by side with <= 2 (3) clauses, each within one class."
 )
+
+CHECKS["C23"]["text"] += (
+    " Models with two for-equations sharing the index name and the subscript expression but not the range (equal length, "
+    "different bounds) are included, each loop judged on its own range."
+)
